@@ -10,7 +10,7 @@ _reg('jit', ['J1'])
 _reg('recip', ['R1', 'R2'])
 _reg('api', ['H1', 'D2', 'I7'])
 _reg('life', ['H6', 'H7', 'H3'])
-_reg('sshash', ['S4', 'D1'])
+_reg('sshash', ['S4', 'D1', 'S1'])
 
 PROPS = {
  'C11': dict(level='other', lemmas=['B1', 'B2', 'B3', 'B4', 'B5'],
@@ -47,7 +47,7 @@ PROPS = {
  'C03': dict(level='other', lemmas=['H3', 'H1', 'H6'],
    files=['src/randomx.cpp', 'src/virtual_machine.cpp', 'src/virtual_machine.hpp', 'src/vm_compiled_light.cpp', 'src/vm_interpreted_light.cpp', 'src/vm_compiled.cpp', 'src/dataset.hpp', 'src/aes_hash.cpp'],
    explanation='TODO', trusted=[], outside=[]),
- 'C09': dict(level='translation_validation', lemmas=['S4'],
+ 'C09': dict(level='translation_validation', lemmas=['S4', 'S1'],
    files=['src/superscalar.cpp', 'src/superscalar.hpp', 'src/superscalar_program.hpp', 'src/blake2_generator.cpp', 'src/dataset.cpp', 'src/jit_compiler_x86.cpp', 'src/reciprocal.c', 'doc/specs.md'],
    explanation='TODO', trusted=[], outside=[]),
 }
